@@ -7,7 +7,7 @@ broadcast use crate::prelude::group_felt;
 //@verbatim crates/commitment/src/vector/config.rs enum Error
 //@clone Config
 impl Config {
-//@repo crates/commitment/src/vector/config.rs fn Config::validate props=C11
+//@repo crates/commitment/src/vector/config.rs fn Config::validate props=C01,C02,C11
     pub fn validate(
         &self,
         expected_height: Felt,
@@ -15,7 +15,7 @@ impl Config {
     ) -> (r: Result<(), Error>)
         ensures
             r.is_ok() <==> (self.height@ == expected_height@
-                && self.n_verifier_friendly_commitment_layers@ == expected_n_verifier_friendly_commitment_layers@), // [C11:vector-config-height-and-friendly-count]
+                && self.n_verifier_friendly_commitment_layers@ == expected_n_verifier_friendly_commitment_layers@), // [C01,C02,C11:vector-config-height-and-friendly-count]
     {
         if self.height != expected_height {
             return Err(Error::MisMatch { value: self.height, expected: expected_height });
